@@ -117,6 +117,35 @@ def run(seed=0, tier="quick", aimed=None):
                 if e > 1e-8:
                     return fail(f"advection_flux_eno3_2d axis={'xy'[ax]} mode={mode}", e,
                                 {"h": h, "grid": [ny + 4, nx + 4], "cubic": impl.tolist(cc)})
+        # ---------------- 3D ENO3: nodal flux cubic along one axis, velocity varying ALONG that axis
+        for mode in ("pos", "neg", "mixed"):
+            S3 = tuple(int(v) for v in r.integers(7, 10, size=3))
+            cc = r.normal(size=4)
+            if mode == "mixed":
+                cc[3] = 0.0
+            for ax in range(3):  # component index: 0 = x = last array axis
+                axis = 2 - ax
+                coord1 = (np.arange(S3[axis]) + 0.5) * h
+                shp = [1, 1, 1]; shp[axis] = S3[axis]
+                coord = np.broadcast_to(coord1.reshape(shp), S3)
+                vel1 = r.uniform(0.5, 2.0, size=S3[axis])
+                if mode == "neg":
+                    vel1 = -vel1
+                if mode == "mixed":
+                    vel1 = vel1 * np.sign(r.normal(size=vel1.shape))
+                velc = np.broadcast_to(vel1.reshape(shp), S3) * r.uniform(0.8, 1.2, size=S3)
+                qn = cc[0] + cc[1] * coord + cc[2] * coord**2 + cc[3] * coord**3
+                dq = cc[1] + 2 * cc[2] * coord + 3 * cc[3] * coord**2
+                fld = qn / velc
+                v3 = np.zeros((3,) + S3); v3[ax] = velc
+                flux = np.zeros(S3)
+                spne.gen_advection_flux_conservative_eno3_pyst_kernel_3d(real_t=np.float64)(
+                    advection_flux=flux, field=fld, velocity=v3, inv_dx=1.0 / h)
+                J = (slice(2, -2),) * 3
+                e = impl.relerr(flux[J], dq[J]); cases += 1
+                if e > 1e-8:
+                    return fail(f"advection_flux_eno3_3d axis={'xyz'[ax]} mode={mode}", e,
+                                {"h": h, "grid": list(S3), "cubic": impl.tolist(cc), "velocity_along_axis": impl.tolist(vel1)})
         # ---------------- 3D
         nz, ny, nx = (int(v) for v in r.integers(4, 7, size=3))
         x = (np.arange(nx) + 0.5) * h; y = (np.arange(ny) + 0.5) * h; z = (np.arange(nz) + 0.5) * h
